@@ -92,11 +92,12 @@ type alphabet struct {
 	// request shape: every (token, caller, scope list) is sent in the default shape (parameters
 	// in the body, form client_id as the method prescribes); every (token, caller) is also sent
 	// in every non-default shape with the scope lists named in Lite.
-	Cids  []string // form client_id values besides the method's default: absent | own | owner | unknown | other
-	Chans []string // parameter channels besides "body": gtq | query | get | gtmix | multipart
-	Pairs bool     // true: full product Cids x Chans; false: one of the two deviates at a time
-	Lite  []string // names of the scope lists combined with non-default shapes
-	Lapse []string // clients whose refresh-grant registration can be withdrawn in mid-history (operation lapse|<client>)
+	Cids     []string // form client_id values besides the method's default: absent | own | owner | unknown | other
+	Chans    []string // parameter channels besides "body": gtq | query | get | gtmix | multipart
+	PairCids []string // form client_id classes that are also combined with every channel of Chans (the other classes deviate alone)
+	Lite     []string // names of the scope lists combined with a non-default form client_id (both deviate: the first one only)
+	LiteChan []string // names of the scope lists combined with a non-default channel
+	Lapse    []string // clients whose refresh-grant registration can be withdrawn in mid-history (operation lapse|<client>)
 }
 
 const (
@@ -107,7 +108,7 @@ const (
 var (
 	cidsQuick     = []string{"absent", "own", "owner", "unknown"}
 	cidsThorough  = []string{"absent", "own", "owner", "unknown", "other"}
-	chansQuick    = []string{"gtq", "query"}
+	chansQuick    = []string{"gtq", "query", "gtmix"}
 	chansThorough = []string{"gtq", "query", "get", "gtmix", "multipart"}
 	liteScopes    = []string{"absent", "S0+phone"}
 )
@@ -179,9 +180,16 @@ func scopesLapse() []scopeDef {
 }
 
 func callersWide() []callerDef {
-	return append(callersThorough(),
+	out := append(callersQuick(),
+		callerDef{Name: "web-postbody", Client: "web", Mode: "post", Secret: "secret-web", Authed: "either"},
+		callerDef{Name: "anon", Client: "", Mode: "anon", Authed: "no"},
+		callerDef{Name: "post", Client: "post", Mode: "post", Secret: "secret-post", Authed: "yes"},
+		callerDef{Name: "jwt-badsig", Client: "jwt", Mode: "assert", Secret: "p256a/jk2", Authed: "no"},
+		callerDef{Name: "jwt-idonly", Client: "jwt", Mode: "id", Authed: "no"},
+		callerDef{Name: "webjwt", Client: "webjwt", Mode: "basic", Secret: "secret-webjwt", Authed: "yes"},
 		callerDef{Name: "plapsed", Client: "plapsed", Mode: "id", Authed: "yes"},
 	)
+	return out
 }
 
 func callersQuick() []callerDef {
@@ -206,10 +214,10 @@ func callersThorough() []callerDef {
 		callerDef{Name: "jwt-badsig", Client: "jwt", Mode: "assert", Secret: "p256a/jk2", Authed: "no"}, // signed with a key the client never registered
 		callerDef{Name: "jwt-idonly", Client: "jwt", Mode: "id", Authed: "no"},
 		callerDef{Name: "webjwt", Client: "webjwt", Mode: "basic", Secret: "secret-webjwt", Authed: "yes"},
-		callerDef{Name: "pub-basic", Client: "pub", Mode: "basic", Secret: "", Authed: "either"},                                     // public client identified through the Authorization header
-		callerDef{Name: "pub-junksecret", Client: "pub", Mode: "post", Secret: "junk", Authed: "either"},                             // public client sending a secret nobody registered
-		callerDef{Name: "jwt-notype", Client: "jwt", Mode: "assert-notype", Secret: "p256b/jk2", Authed: "either"},                   // valid assertion, client_assertion_type missing
-		callerDef{Name: "web2+jwt", Client: "web2", Mode: "basic", Secret: "secret-web2", Assert: "jwt|p256b/jk2", Authed: "either"}, // two valid credentials of two clients in one request
+		callerDef{Name: "pub-basic", Client: "pub", Mode: "basic", Secret: "", Authed: "either"},                                  // public client identified through the Authorization header
+		callerDef{Name: "pub-junksecret", Client: "pub", Mode: "post", Secret: "junk", Authed: "either"},                          // public client sending a secret nobody registered
+		callerDef{Name: "jwt-notype", Client: "jwt", Mode: "assert-notype", Secret: "p256b/jk2", Authed: "either"},                // valid assertion, client_assertion_type missing
+		callerDef{Name: "web+jwt", Client: "web", Mode: "basic", Secret: "secret-web", Assert: "jwt|p256b/jk2", Authed: "either"}, // two valid credentials of two clients in one request
 	)
 }
 
@@ -463,8 +471,11 @@ func (p *part) ops(s *state) []string {
 			}
 			for _, sh := range p.shapes(c, t.owner) {
 				lite := p.A.Lite
-				if sh[0] != cidDefault && sh[1] != chanBody {
+				switch {
+				case sh[0] != cidDefault && sh[1] != chanBody:
 					lite = lite[:1] // both deviate (thorough): with the scope list that keeps the grant only
+				case sh[1] != chanBody:
+					lite = p.A.LiteChan
 				}
 				for _, sc := range lite {
 					out = append(out, "refresh|"+t.ref+"|"+c.Name+"|"+sc+"|"+sh[0]+"|"+sh[1])
@@ -530,8 +541,8 @@ func (p *part) shapes(c *callerDef, owner string) [][2]string {
 	}
 	for _, ch := range p.A.Chans {
 		out = append(out, [2]string{cidDefault, ch})
-		if p.A.Pairs {
-			for _, cid := range cids {
+		for _, cid := range cids {
+			if slices.Contains(p.A.PairCids, cid) {
 				out = append(out, [2]string{cid, ch})
 			}
 		}
@@ -982,7 +993,10 @@ func (w *worker) doRefresh(s *state, tokRef, callerName, scopeName, cid, ch stri
 	if cd.Assert != "" {
 		mode += "+assert"
 	}
-	sigShape := "auth-" + mode
+	// signature: "auth-<method>", plus the request shape where the shape is the discriminating input
+	// class (who the caller is / whether it may use the grant), not for scope or token-state refusals
+	sigAuth := "auth-" + mode
+	sigShape := sigAuth
 	if tag != "" {
 		sigShape += "+" + tag
 	}
@@ -1072,7 +1086,11 @@ func (w *worker) doRefresh(s *state, tokRef, callerName, scopeName, cid, ch stri
 			rule += "@" + tag
 		}
 		if o.served || o.leak {
-			return engine.Bad(rule, o.class, "C07/served-"+reason+"/"+rtr+"/"+sigShape, describe())
+			switch reason {
+			case "disabled", "unauthenticated", "grant-not-registered", "foreign-client":
+				return engine.Bad(rule, o.class, "C07/served-"+reason+"/"+rtr+"/"+sigShape, describe())
+			}
+			return engine.Bad(rule, o.class, "C07/served-"+reason+"/"+rtr+"/"+sigAuth, describe())
 		}
 		if len(o.creates) > 0 {
 			return engine.Bad(rule, o.class, "C07/storage-create-on-refusal/"+rtr+"/"+reason, describe())
@@ -1095,7 +1113,7 @@ func (w *worker) doRefresh(s *state, tokRef, callerName, scopeName, cid, ch stri
 	}
 	if !o.served {
 		if o.leak {
-			return engine.Bad(rule, o.class, "C07/token-in-error-response/"+rtr+"/"+sigShape, describe())
+			return engine.Bad(rule, o.class, "C07/token-in-error-response/"+rtr+"/"+sigAuth, describe())
 		}
 		if len(o.creates) > 0 {
 			return engine.Bad(rule, o.class, "C07/storage-create-on-refusal/"+rtr+"/owner", describe())
@@ -1325,27 +1343,27 @@ func TestCheck(t *testing.T) {
 	// the search runs until the frontier is empty (depth_completed / frontier_left in the evidence),
 	// i.e. histories of every length over the alphabet are covered.
 	runs := []run{{"", alphabet{Fams: famsQuick(), Callers: callersQuick(), Scopes: scopesQuick(),
-		Cids: cidsQuick, Chans: chansQuick, Lite: liteScopes}, 12, true}}
+		Cids: cidsQuick, Chans: chansQuick, Lite: liteScopes, LiteChan: liteScopes}, 12, true}}
 	if c.Thorough() {
 		runs = []run{
 			// superset of the quick alphabet: more callers, more scope lists, request without refresh_token,
-			// full product form client_id x channel, more channels
+			// more form client_id classes and channels, the token owner's client_id in every channel
 			{"", alphabet{Fams: famsQuick(), Callers: callersThorough(), Scopes: scopesThorough(), Missing: true,
-				Cids: cidsThorough, Chans: chansThorough, Pairs: true, Lite: liteScopes}, 16, true},
+				Cids: cidsThorough, Chans: chansThorough, PairCids: []string{"owner"}, Lite: liteScopes, LiteChan: liteScopes}, 16, true},
 			// other client kinds as token owners, from an all-redeemed initial state
 			{"/wide", alphabet{Fams: famsWide(), Callers: callersWide(), Scopes: scopesThorough(), Missing: true,
-				Cids: cidsThorough, Chans: chansThorough, Lite: liteScopes}, 16, false},
+				Cids: cidsQuick, Chans: chansQuick, Lite: liteScopes, LiteChan: liteScopes[:1]}, 16, false},
 			// every client kind once with a small grant; each registration can be withdrawn at any point of the history
 			{"/lapse", alphabet{Fams: famsLapse(), Callers: callersLapse(), Scopes: scopesLapse(),
-				Cids: cidsQuick, Chans: chansQuick, Lite: liteScopes, Lapse: []string{"web", "jwt", "pub"}}, 16, false},
+				Cids: cidsQuick, Chans: chansQuick, Lite: liteScopes, LiteChan: liteScopes, Lapse: []string{"web", "jwt", "pub"}}, 16, false},
 		}
 	}
 	var desc []map[string]any
 	for _, r := range runs {
 		checkCallers(c, config(false), r.A.Callers)
 		desc = append(desc, map[string]any{"part_suffix": r.Suffix, "families": r.A.Fams, "callers": r.A.Callers, "scope_lists": r.A.Scopes,
-			"missing_token": r.A.Missing, "form_client_id": r.A.Cids, "channels": r.A.Chans, "cid_x_channel_product": r.A.Pairs,
-			"scope_lists_for_other_shapes": r.A.Lite, "registration_withdrawn_in_history": r.A.Lapse, "max_depth": r.Depth, "refresh_off_too": r.Off})
+			"missing_token": r.A.Missing, "form_client_id": r.A.Cids, "channels": r.A.Chans, "form_client_id_x_every_channel": r.A.PairCids,
+			"scope_lists_with_other_client_id": r.A.Lite, "scope_lists_with_other_channel": r.A.LiteChan, "registration_withdrawn_in_history": r.A.Lapse, "max_depth": r.Depth, "refresh_off_too": r.Off})
 	}
 	c.Extra("alphabet", desc)
 	for _, r := range runs {
